@@ -407,7 +407,7 @@ class Interp(Evaluator):
             raise AnalysisError(f"method call outside the abstract domain: {norm(e)}")
         if isinstance(e.func, ast.Name) and e.func.id in self.env:
             return self.apply(self.env[e.func.id], [self.ev(a) for a in e.args])
-        if isinstance(e.func, ast.Lambda):
+        if isinstance(e.func, (ast.Lambda, ast.Subscript)):
             return self.apply(self.ev(e.func), [self.ev(a) for a in e.args])
         raise AnalysisError(f"call outside the abstract domain: {norm(e)}")
 
